@@ -315,6 +315,50 @@ func (w *World) lookupRule(r *Report, fi *FuncInfo, maxW int64) {
 		}
 		return true
 	})
+	// the raw name is looked at only through the folding (or put into a message): a test on the spelling
+	// as given (a prefix check before ToUpper) makes the lookup case-sensitive again
+	if len(fi.Decl.Type.Params.List) > 0 && len(fi.Decl.Type.Params.List[0].Names) > 0 {
+		info := fi.Pkg.TypesInfo
+		nameObj := info.Defs[fi.Decl.Type.Params.List[0].Names[0]]
+		rawUse := ""
+		var stack []ast.Node
+		ast.Inspect(fi.Decl.Body, func(n ast.Node) bool {
+			if n == nil {
+				stack = stack[:len(stack)-1]
+				return true
+			}
+			stack = append(stack, n)
+			id, ok := n.(*ast.Ident)
+			if !ok || info.Uses[id] != nameObj || rawUse != "" {
+				return true
+			}
+			// the innermost enclosing call decides
+			for i := len(stack) - 2; i >= 0; i-- {
+				call, ok := stack[i].(*ast.CallExpr)
+				if !ok {
+					if _, isBin := stack[i].(*ast.BinaryExpr); isBin {
+						rawUse = "a comparison at " + w.Pos(id.Pos())
+						return true
+					}
+					continue
+				}
+				f := (&Interp{info: info}).callee(call)
+				switch {
+				case f != nil && f.Pkg() != nil && f.Pkg().Path() == "strings" && (f.Name() == "ToUpper" || f.Name() == "ToLower" || f.Name() == "TrimSpace"):
+				case f != nil && f.Pkg() != nil && (f.Pkg().Path() == "fmt" || f.Pkg().Path() == "errors" || strings.HasSuffix(f.Pkg().Path(), "logrus") || f.Pkg().Path() == "log"):
+				default:
+					rawUse = types.ExprString(call.Fun) + " at " + w.Pos(call.Pos())
+				}
+				return true
+			}
+			return true
+		})
+		if rawUse != "" {
+			r.Fail(VViolation, "lookup", fi.Key, "rawname", pos, "the name as given (before case folding) is examined by "+rawUse+": names that differ from the registered spelling only in case are treated differently, so the lookup is not case-insensitive")
+		} else {
+			r.OK("lookup", fi.Key, "rawname", pos, "the name parameter is used only as the argument of the case folding and in messages", true)
+		}
+	}
 	if folded {
 		r.OK("lookup", fi.Key, "casefold", w.Pos(idxPos), "the registry is indexed by strings.ToUpper(name)", true)
 	} else {
